@@ -51,6 +51,7 @@ func graceEdgeCase(t *rapid.T, test string, stateSync bool) {
 		defer A.CleanupSnapshots()
 	}
 	var B *sim.Node // the state-synced / restarted node
+	fullFrom := uint64(0)
 	var steps []string
 	fail := func(sig, f string, a ...interface{}) {
 		t.Fatalf("VERIF-SIG[%s] %s\nhistory:\n%s", sig, fmt.Sprintf(f, a...), joinLines(steps))
@@ -83,7 +84,8 @@ func graceEdgeCase(t *rapid.T, test string, stateSync bool) {
 			}
 		}
 		if B != nil {
-			if d := sim.DiffDigests(A.QueryDigest(req.Height, true), B.QueryDigest(req.Height, true)); d != "" {
+			// the whole export is compared around the end of the grace period, hashes and events always
+			if d := sim.DiffDigests(A.QueryDigest(req.Height, fullFrom != 0 && req.Height >= fullFrom), B.QueryDigest(req.Height, fullFrom != 0 && req.Height >= fullFrom)); d != "" {
 				sig := "restart-divergence-query"
 				if stateSync {
 					sig = "statesync-divergence-query"
@@ -165,6 +167,7 @@ func graceEdgeCase(t *rapid.T, test string, stateSync bool) {
 	thirteenth := uint64(int64(H) + 120 + delta)
 	firstMiss := thirteenth - 12
 	who := sim.U(t, "absentValidator", len(A.TmValidators()))
+	fullFrom = firstMiss + 8
 	steps = append(steps, fmt.Sprintf("validator #%d misses blocks %d..%d (13th miss at H+120%+d)", who, firstMiss, thirteenth, delta))
 	for A.LastHeight < thirteenth+3 {
 		next := A.LastHeight + 1
